@@ -328,6 +328,25 @@ fn write_replay(prop: Prop, tier: Tier, base_seed: u64, f: &Found, minimised: bo
     path
 }
 
+/// Reach probes every batch of a property is expected to hit; the ones still at zero are listed in
+/// the evidence (and printed in the thorough tier) so that a blind spot of the workload is visible.
+fn expected_probes(prop: Prop) -> &'static [&'static str] {
+    match prop {
+        Prop::C02 => &["reply-forwarded", "abort-pending-call", "reply-after-abort", "service-removed-with-pending-call", "caller-disconnect-with-pending-call", "non-owner-reply", "old-callee-abort-suppressed", "self-call", "call-duplicate-serial", "overlapping-calls", "call2-downgraded-for-old-callee", "reply-unknown-serial", "abort-unknown-serial"],
+        Prop::C03 => &["create-object-duplicate", "destroy-object-foreign", "destroy-object-invalid", "recreate-after-destroy", "object-cascade-2+-services", "disconnect-with-2+-objects", "create-service-foreign", "create-service-duplicate", "create-service-invalid-object", "destroy-service-foreign", "destroy-service-invalid", "create-service2-bad-info"],
+        Prop::C04 => &["emit-to-2+", "last-unsubscribe-forwarded", "first-subscribe-forwarded", "last-subscriber-disconnects", "last-all-subscriber-disconnects", "service-destroyed-with-subscribers", "subscribe-twice", "non-owner-emit", "subscribe-all-not-supported", "subscribe-without-serial"],
+        Prop::C05 => &["credit-hit-zero", "replenish-on-send", "replenish-on-grant", "overrun-cut-off", "capacity-overflow", "claim-already-claimed", "claim-closed-end", "claim-invalid-channel", "close-unclaimed-end", "close-foreign-end", "send-to-unclaimed-receiver", "send-to-closed-receiver", "both-ends-same-connection", "owner-disconnect-closes-channel-end", "add-capacity-foreign", "send-item-foreign-sender", "channel-session", "channel-item-delivered"],
+        Prop::C09 => &["conn-removed-with-state", "send-to-dropped-receiver-failed", "input-from-removed-connection", "caller-disconnect-with-pending-call", "service-removed-with-pending-call", "owner-disconnect-closes-channel-end", "last-subscriber-disconnects", "create-channel-from-dropped-task", "introspection-query-continued-after-disconnect", "handler-returned-err"],
+        Prop::C10 => &["current-enumeration-nonempty", "bus-event-delivered", "bus-event-deduplicated-per-connection", "filter-removed", "start-while-started", "foreign-listener-cookie"],
+        Prop::C11 => &["wrong-direction-message", "handler-returned-err", "gate-closed", "input-from-removed-connection", "introspection-reply-unknown-serial", "introspection-reply-from-wrong-connection", "call-duplicate-serial", "subscribe-without-serial", "create-service2-bad-info"],
+        Prop::C12 => &["handshake-ok", "handshake-incompatible", "gate-closed", "cross-epoch-payload", "call2-downgraded-for-old-callee", "old-callee-abort-suppressed", "subscribe-all-not-supported"],
+        Prop::C14 => &["short-read", "short-write", "pipe-full-backpressure", "flush-completed", "frame>=8KiB-backpressure-boundary", "frame>=64KiB-reserve-step", "packetizer-spare-interface", "packetizer-extend-interface", "single-byte-chunks", "buffered-in-front", "transport-pair-run"],
+        Prop::C06 => &["call-served", "call-value-checked", "call-dropped-at-once", "call-cancelled-mid-flight", "call-refused-or-aborted", "promise-held-until-teardown", "event-received", "proxy-dropped", "channel-session", "channel-item-delivered", "claim-ok", "claim-fails", "claim-cancelled", "establish-cancelled", "unbound-end-bound", "receiver-closed-early", "send-refused", "listener-started", "bus-event-received", "discoverer-created", "object-found", "lifetime-bound"],
+        Prop::C15 => &["call-served", "channel-session", "listener-started", "discoverer-created", "conn-removed-with-state"],
+        Prop::C19 => &["discoverer-created", "discoverer-checked", "discoverer-restarted", "object-found", "object-not-found", "lifetime-bound", "lifetime-checked", "lifetime-ended-observed", "recreate-after-destroy", "object-cascade-2+-services"],
+    }
+}
+
 fn write_evidence(prop: Prop, tier: Tier, base_seed: u64, cfg: &PropCfg, out: &BatchOut, violations: u64) {
     let dir = format!("{}/evidence", verif_dir());
     let _ = std::fs::create_dir_all(&dir);
@@ -336,7 +355,16 @@ fn write_evidence(prop: Prop, tier: Tier, base_seed: u64, cfg: &PropCfg, out: &B
     } else {
         0.0
     };
-    let zero_probes: Vec<&String> = out.probes.iter().filter(|(_, v)| **v == 0).map(|(k, _)| k).collect();
+    let zero_probes: Vec<&str> = expected_probes(prop)
+        .iter()
+        .copied()
+        .filter(|p| out.probes.get(*p).copied().unwrap_or(0) == 0)
+        .collect();
+    if tier == Tier::Thorough {
+        for p in &zero_probes {
+            println!("warning: reach probe '{p}' was not hit in this batch");
+        }
+    }
     let doc = json!({
         "property_id": prop.name(),
         "tier": tier.name(),
